@@ -216,6 +216,33 @@ def gen_reservoir():
         ast.fix_missing_locations(fn)
         P.Tr(m, fn, emit_name="single_prelude_" + shape, option=True, ret_annot="option (list R * list R)", fixed=fixed,
              kinds=dict({"time": "list", "nx": "nat", "fluid_m_scaled_func": "vfun"}, **kinds)).translate()
+    # the mesh constants: what each simulate computes from the node count before its loop
+    #   ideal:  x = np.linspace(0, 1, self.nx); dx_squared = (x[1] - x[0]) ** 2          single-phase:  dx_squared = (1 / self.nx) ** 2
+    class Nx(ast.NodeTransformer):
+        def visit_Attribute(self, node):
+            if ast.unparse(node) == "self.nx":
+                return ast.copy_location(ast.Name(id="nx", ctx=ast.Load()), node)
+            if ast.unparse(node).startswith("self."):
+                raise P.Untranslatable(f"mesh constant reads {ast.unparse(node)} (only the current node count may enter)")
+            return self.generic_visit(node)
+    for cls_name, emit in (("IdealReservoir", "ideal_dx_squared"), ("SinglePhaseReservoir", "single_dx_squared")):
+        simf = m.method(cls_name, "simulate")
+        loop_idx = [i for i, n in enumerate(simf.body) if isinstance(n, ast.For)]
+        pre = simf.body[:loop_idx[0]] if loop_idx else simf.body
+        # backward slice from dx_squared over the plain assignments before the loop
+        need, keep_m = {"dx_squared"}, []
+        for n in reversed(pre):
+            if isinstance(n, ast.Assign) and len(n.targets) == 1 and isinstance(n.targets[0], ast.Name) and n.targets[0].id in need:
+                need.discard(n.targets[0].id)
+                need |= {x.id for x in ast.walk(n.value) if isinstance(x, ast.Name) and x.id not in ("np", "self")}
+                keep_m.insert(0, n)
+        if not keep_m or need - {"np"}:
+            raise P.Untranslatable(f"{cls_name}.simulate: dx_squared is not computed from the node count by plain assignments before the loop (open names: {sorted(need)})")
+        body_m = [Nx().visit(copy.deepcopy(n)) for n in keep_m] + [ast.parse("return dx_squared").body[0]]
+        fn = ast.FunctionDef(name=emit, args=ast.arguments(posonlyargs=[], args=[ast.arg(arg="nx")], kwonlyargs=[], kw_defaults=[], defaults=[]),
+                             body=body_m, decorator_list=[], lineno=simf.lineno, col_offset=0)
+        ast.fix_missing_locations(fn)
+        P.Tr(m, fn, emit_name=emit, kinds={"nx": "nat"}).translate()
     # recovery_factor: the flux stencil of one time level (pp[:, k] -> u_k)
     rf = m.method("IdealReservoir", "recovery_factor")
     rate = [n for n in ast.walk(rf) if isinstance(n, ast.Assign) and isinstance(n.targets[0], ast.Name) and n.targets[0].id == "rate"]
@@ -387,7 +414,10 @@ def gen_flowprops():
     shapes = {"long": ["pressure", "pseudopressure", "compressibility", "viscosity", "z-factor"],
               "short": ["pressure", "pseudopressure", "alpha"],
               "both": ["pressure", "pseudopressure", "compressibility", "viscosity", "z-factor", "alpha"],
-              "missing": ["pressure", "pseudopressure", "viscosity"]}
+              "missing": ["pressure", "pseudopressure", "viscosity"],
+              # tables that went through the wrapper before and still carry its derived column (scaled for another initial pressure)
+              "long_stale": ["pressure", "pseudopressure", "compressibility", "viscosity", "z-factor", "m-scaled"],
+              "short_stale": ["pressure", "pseudopressure", "alpha", "m-scaled"]}
     for shape, cols in shapes.items():
         fn = ast.FunctionDef(name="flowproperties_init_" + shape, args=ast.arguments(posonlyargs=[], args=[ast.arg(arg="pvt_props"), ast.arg(arg="p_i")], kwonlyargs=[], kw_defaults=[], defaults=[]),
                              body=body + [ret], decorator_list=[], lineno=init.lineno, col_offset=0)
